@@ -29,21 +29,25 @@ const (
 )
 
 // Timer classes. The code adds rand jitter in [0, period/2) to every period, so a sleep
-// of 1.5*period+1ms started at or after the timer's creation always fires it. The three
-// classes are separated by a factor > 60 so that, within the 40-step horizon, the sleeps
-// of a smaller class can never accumulate to the period of a larger one: which timer
+// of 1.5*period+1ms started at or after the timer's creation always fires it. The
+// classes are separated by a factor > 40 so that, within the 40-step horizon, the sleeps
+// of the smaller classes can never accumulate to the period of a larger one: which timer
 // fires in which sleep does not depend on the jitter values (DESIGN §7).
 //
 //	class 1: DriverFacade start retry, 2s, hard-coded in manager.go (initExporter)
-//	class 2: pipeline pull interval and push retry period (one pipeline goroutine => at most one pending)
-//	class 3: manager sync period
+//	class 2: flush interval of the batching layer (no jitter; only armed in a configuration
+//	         with batching.flush_timer: a sub-batch that did not reach max_items waits for it)
+//	class 3: pipeline pull interval and push retry period (one pipeline goroutine => at most one pending)
+//	class 4: manager sync period
 const (
-	periodPipeline = 1000 * time.Second
-	periodSync     = 100000 * time.Second
+	periodFlush    = 150 * time.Second
+	periodPipeline = 10000 * time.Second
+	periodSync     = 1000000 * time.Second
 )
 
 var sleepLevels = []time.Duration{
 	3*time.Second + time.Millisecond,
+	periodFlush + time.Millisecond,
 	periodPipeline*3/2 + time.Millisecond,
 	periodSync*3/2 + time.Millisecond,
 }
@@ -154,9 +158,43 @@ type config struct {
 	MaxAppends int    `json:"max_appends"`
 	PageSize   uint64 `json:"page_size"`
 	Horizon    int    `json:"horizon"`
+	// Batching != nil puts the REAL batching layer (drivers.NewWithBatchingDriverFactory ->
+	// drivers.Batcher -> go.vallahaye.net/batcher) between the DriverFacade and the gated
+	// recording exporter, as cmd/ wires it in production: one page handed over by the
+	// pipeline then reaches the exporter as several sub-batches, each of which is parked,
+	// acknowledged or failed on its own.
+	Batching *batchSpec `json:"batching,omitempty"`
 	// replay files only (never set by the explorer): keep going after oracle (1) fired, to
 	// show what the stale resume position leads to
 	IgnorePersistOracle bool `json:"ignore_persist_oracle,omitempty"`
+}
+
+// batchSpec is the exporter's `batching` configuration block (drivers.Batching).
+type batchSpec struct {
+	MaxItems int `json:"max_items"`
+	// 0: no flush timer (every sub-batch is cut by max_items). Otherwise the flush interval
+	// is the timer class flushInterval (see sleepLevels).
+	FlushTimer bool `json:"flush_timer,omitempty"`
+}
+
+func (b *batchSpec) rawConfig() json.RawMessage {
+	if b == nil {
+		return json.RawMessage(`{}`)
+	}
+	if b.FlushTimer {
+		return json.RawMessage(fmt.Sprintf(`{"batching":{"maxItems":%d,"flushInterval":%q}}`, b.MaxItems, periodFlush.String()))
+	}
+	return json.RawMessage(fmt.Sprintf(`{"batching":{"maxItems":%d}}`, b.MaxItems))
+}
+
+// pageRec is one call of the pipeline into its exporter (PipelineHandler.Run ->
+// DriverFacade.Accept), observed above the batching layer. Batched configurations only.
+type pageRec struct {
+	ids          []uint64
+	epoch        int
+	subs         int  // sub-batches of this page that reached the exporter
+	failed       bool // one of them was failed by the exporter
+	ackAfterFail bool // ... and a LATER sub-batch of the same page was acknowledged
 }
 
 // world is one execution's environment: fake storage + fake exporter + oracle state.
@@ -181,8 +219,12 @@ type world struct {
 	fetchers, driversN int
 
 	// oracle state
-	epoch                int
-	acked                uint64 // highest id acknowledged by Accept calls that arrived in the current epoch
+	epoch int
+	// acked: every log 1..acked has been acknowledged by an Accept call that reached the
+	// exporter in the current epoch (and acked+1 has not). Without the batching layer a
+	// batch never starts after acked+1 (oracle 2), so this is also the highest acknowledged id.
+	acked                uint64
+	ackedIDs             map[uint64]bool
 	lastStore            *gate
 	lastResetUpdateStamp int
 	nAppends             int
@@ -201,6 +243,16 @@ type world struct {
 	lastReleased     *gate
 	advancedFromIdle bool
 
+	// batched configurations: what happened above / below the batching layer
+	batchers     []*drivers.Batcher
+	inflight     map[int]*pageRec // driver incarnation -> page being exported
+	pages        int              // pages handed over by the pipeline
+	pagesOK      int              // ... for which the batching layer reported success
+	splitPages   int              // pages that reached the exporter as >= 2 sub-batches
+	partialPages int              // pages with a failed sub-batch AND a later acknowledged one
+	swallowed    int              // partialPages for which the batching layer nevertheless reported success
+	crash        string           // a goroutine of the code under test panicked (would kill the process)
+
 	gatesTotal  int
 	cmdsDone    int
 	logEvents   atomic.Int64
@@ -214,7 +266,7 @@ type world struct {
 }
 
 func newWorld(cfg config, tracing bool) *world {
-	w := &world{cfg: cfg, tracing: tracing}
+	w := &world{cfg: cfg, tracing: tracing, ackedIDs: map[uint64]bool{}, inflight: map[int]*pageRec{}}
 	w.pipeline = ledger.Pipeline{
 		PipelineConfiguration: ledger.NewPipelineConfiguration(ledgerName, exporterID),
 		ID:                    pipeID,
@@ -277,7 +329,7 @@ func (w *world) pipelineCopy() *ledger.Pipeline {
 
 func (w *world) newEpochLocked(why string) {
 	w.epoch++
-	w.acked = 0
+	w.acked, w.ackedIDs = 0, map[uint64]bool{}
 	w.tracef("    oracle: reset epoch %d begins (%s): acknowledgements restart from 0", w.epoch, why)
 }
 
@@ -542,7 +594,111 @@ func (f *fakeFactory) Create(_ context.Context, id string) (drivers.Driver, json
 	f.w.driversN++
 	inc := f.w.driversN
 	f.w.mu.Unlock()
-	return &fakeDriver{w: f.w, gen: f.gen, inc: inc}, json.RawMessage(`{}`), nil
+	return &fakeDriver{w: f.w, gen: f.gen, inc: inc}, f.w.cfg.Batching.rawConfig(), nil
+}
+
+// pageObserverFactory (batched configurations only) is what the Manager gets:
+// pageObserver -> drivers.Batcher (real, built by the real DriverFactoryWithBatching from
+// the exporter's raw configuration) -> fakeDriver.
+type pageObserverFactory struct {
+	w     *world
+	inner drivers.Factory
+}
+
+func (f *pageObserverFactory) Create(ctx context.Context, id string) (drivers.Driver, json.RawMessage, error) {
+	d, raw, err := f.inner.Create(ctx, id)
+	if err != nil {
+		return nil, nil, err
+	}
+	b, ok := d.(*drivers.Batcher)
+	if !ok {
+		f.w.mu.Lock()
+		f.w.setEngErr(fmt.Sprintf("DriverFactoryWithBatching returned a %T, not a *drivers.Batcher: teach k5/world_test.go", d))
+		f.w.mu.Unlock()
+		return d, raw, nil
+	}
+	fd, ok := b.Driver.(*fakeDriver)
+	if !ok {
+		f.w.mu.Lock()
+		f.w.setEngErr(fmt.Sprintf("the Batcher wraps a %T, not the recording exporter", b.Driver))
+		f.w.mu.Unlock()
+		return d, raw, nil
+	}
+	f.w.mu.Lock()
+	f.w.batchers = append(f.w.batchers, b)
+	f.w.mu.Unlock()
+	return &pageObserver{Driver: b, w: f.w, inc: fd.inc}, raw, nil
+}
+
+// pageObserver never blocks and never changes a result: it records the pages the pipeline
+// hands over and what the batching layer answers.
+type pageObserver struct {
+	drivers.Driver
+	w   *world
+	inc int
+}
+
+func logIDs(logs []drivers.LogWithLedger) []uint64 {
+	ids := make([]uint64, 0, len(logs))
+	for _, l := range logs {
+		if l.ID == nil {
+			ids = append(ids, 0)
+			continue
+		}
+		ids = append(ids, *l.ID)
+	}
+	return ids
+}
+
+func (o *pageObserver) Accept(ctx context.Context, logs ...drivers.LogWithLedger) (errs []error, err error) {
+	w := o.w
+	w.mu.Lock()
+	pg := &pageRec{ids: logIDs(logs), epoch: w.epoch}
+	if !w.drain {
+		w.pages++
+		w.inflight[o.inc] = pg
+		w.tracef("    pipeline hands page %v to its exporter (batching layer)", pg.ids)
+		w.checkPageLocked(pg.ids)
+	}
+	w.mu.Unlock()
+	defer func() {
+		if r := recover(); r != nil {
+			// in production nothing recovers this goroutine (PipelineHandler.Run's export
+			// goroutine): the process dies
+			w.mu.Lock()
+			if w.crash == "" && !w.drain {
+				w.crash = fmt.Sprintf("%v", r)
+				w.tracef("    PANIC in the export goroutine of the pipeline while exporting page %v: %v", pg.ids, r)
+			}
+			w.mu.Unlock()
+			errs, err = nil, fmt.Errorf("verif: recovered panic of the code under test: %v", r)
+		}
+	}()
+	errs, err = o.Driver.Accept(ctx, logs...)
+	w.mu.Lock()
+	defer w.mu.Unlock()
+	if w.drain {
+		return errs, err
+	}
+	if pg.subs >= 2 {
+		w.splitPages++
+	}
+	if pg.ackAfterFail {
+		w.partialPages++
+	}
+	w.tracef("    batching layer answers %s for page %v (%d sub-batches reached the exporter)", errClass(err), pg.ids, pg.subs)
+	if err == nil {
+		w.pagesOK++
+		if pg.ackAfterFail {
+			w.swallowed++
+		}
+		if ctx.Err() == nil && w.lastListHasMore {
+			// the live pipeline will now publish its position and loop with nextInterval=0
+			w.sendRisk = true
+			w.sendRiskInc = w.lastListInc
+		}
+	}
+	return errs, err
 }
 
 type fakeDriver struct {
@@ -571,27 +727,42 @@ func (d *fakeDriver) Stop(ctx context.Context) error {
 }
 
 func (d *fakeDriver) Accept(ctx context.Context, logs ...drivers.LogWithLedger) ([]error, error) {
-	ids := make([]uint64, 0, len(logs))
-	for _, l := range logs {
-		if l.ID == nil {
-			ids = append(ids, 0)
-			continue
-		}
-		ids = append(ids, *l.ID)
-	}
+	ids := logIDs(logs)
 	g := &gate{kind: kAccept, arg: fmt.Sprint(ids), gen: d.gen, inc: d.inc, ctx: ctx, batch: ids}
-	v := d.w.park(g)
+	w := d.w
+	batched := w.cfg.Batching != nil
+	var pg *pageRec
+	if batched {
+		w.mu.Lock()
+		if pg = w.inflight[d.inc]; pg != nil {
+			pg.subs++
+		}
+		w.mu.Unlock()
+	}
+	v := w.park(g)
 	if v.err != nil {
+		if pg != nil && !v.drain {
+			w.mu.Lock()
+			pg.failed = true
+			w.mu.Unlock()
+		}
 		return nil, v.err
 	}
-	w := d.w
 	w.mu.Lock()
 	defer w.mu.Unlock()
 	w.acceptAcks++
-	if g.epoch == w.epoch && len(ids) > 0 && ids[len(ids)-1] > w.acked {
-		w.acked = ids[len(ids)-1]
+	if pg != nil && pg.failed {
+		pg.ackAfterFail = true
 	}
-	if ctx.Err() == nil && w.lastListHasMore {
+	if g.epoch == w.epoch {
+		for _, id := range ids {
+			w.ackedIDs[id] = true
+		}
+		for w.ackedIDs[w.acked+1] {
+			w.acked++
+		}
+	}
+	if !batched && ctx.Err() == nil && w.lastListHasMore {
 		// the live pipeline will now publish its position and loop with nextInterval=0
 		w.sendRisk = true
 		w.sendRiskInc = w.lastListInc
@@ -637,9 +808,13 @@ func (okValidator) ValidateConfig(string, json.RawMessage) error { return nil }
 
 func (w *world) startManager() {
 	gen := len(w.mgrs)
+	var factory drivers.Factory = &fakeFactory{w: w, gen: gen}
+	if w.cfg.Batching != nil {
+		factory = &pageObserverFactory{w: w, inner: drivers.NewWithBatchingDriverFactory(factory, countingLogger{w})}
+	}
 	m := replication.NewManager(
 		&fakeStorage{w: w, gen: gen},
-		&fakeFactory{w: w, gen: gen},
+		factory,
 		countingLogger{w},
 		okValidator{},
 		replication.WithSyncPeriod(periodSync),
